@@ -9,6 +9,7 @@ pub mod c05;
 pub mod c06;
 pub mod c09;
 pub mod c10;
+pub mod c11;
 pub mod c16;
 pub mod e2e_paths;
 
@@ -22,6 +23,7 @@ pub fn run(ctx: &Ctx) -> Option<Report> {
         "C06" => Some(c06::run(ctx)),
         "C09" => Some(c09::run(ctx)),
         "C10" => Some(c10::run(ctx)),
+        "C11" => Some(c11::run(ctx)),
         "C16" => Some(c16::run(ctx)),
         _ => None,
     }
